@@ -62,6 +62,9 @@ type Cell struct {
 	Dir   string `json:"dir"`   // a2b | b2a : which peer sends the requests
 	Scope string `json:"scope"` // global: plug-in given to NewPeer on both sides | route: the receiving peer registers it on its routes only (README usage)
 	Reps  int    `json:"reps"`  // 0: the three fixed sizes once; n: n rounds with random sizes
+	// Flavour "" : fresh session with an empty swap | "swap-nonempty": both sessions carry an application
+	// entry in Session.Swap() from the start and the operations run as trigger -> probe sequences
+	Flavour string `json:"flavour,omitempty"`
 }
 
 var (
@@ -90,6 +93,22 @@ func cells(tierName string) []Cell {
 			}
 		}
 	}
+	// sessions whose swap is not empty (application data, heartbeat / overloader entries): the plug-in's
+	// scratch entries must stay private to each message; run as sequences on one session
+	for pi, p := range protoNames {
+		for bi, b := range bodyKinds {
+			for ki, k := range []string{"eq16", "eq24", "eq32", "diff16-32"} {
+				dir, sc := "a2b", "global"
+				if (pi+bi+ki)%2 == 1 {
+					dir = "b2a"
+				}
+				if (pi+bi+ki/2)%2 == 1 {
+					sc = "route"
+				}
+				out = append(out, Cell{Idx: len(out), Class: "swap-nonempty-seq", Proto: p, Body: b, Keys: k, Dir: dir, Scope: sc, Reps: reps, Flavour: "swap-nonempty"})
+			}
+		}
+	}
 	return out
 }
 
@@ -115,6 +134,74 @@ type Op struct {
 	Enforce bool   `json:"enforce"`
 	Size    int    `json:"size"`
 	SizeCl  string `json:"size_class"`
+	Phase   string `json:"phase,omitempty"` // "" matrix order | trigger | probe (sequence pairs) | concurrent
+	After   string `json:"after,omitempty"` // for a probe: the operation that preceded it on the session
+}
+
+type opKind struct {
+	kind, marker string
+	enforce      bool
+}
+
+// triggers make the plug-in write its scratch entries; probes are messages that must pass unchanged
+// (unmarked requests; "call accept-true" is an unmarked request whose reply must be encrypted).
+var (
+	seqTriggers = []opKind{{"call", "secure", false}, {"call", "secure+accept-true", false}, {"call", "secure+accept-false", false},
+		{"call", "accept-true", false}, {"call", "none", true}, {"call", "accept-false", true},
+		{"push", "secure", false}, {"push", "secure+accept-true", false}, {"push", "secure+accept-false", false}}
+	seqProbes = []opKind{{"call", "none", false}, {"push", "none", false}, {"call", "accept-false", false},
+		{"push", "accept-true", false}, {"push", "accept-false", false}, {"call", "accept-true", false}}
+)
+
+// seqOps: every trigger followed by every probe on the same session, then the plain matrix order.
+func seqOps(c Cell, r *core.Rand) []Op {
+	var ops []Op
+	rounds := 1
+	if c.Reps > 0 {
+		rounds = c.Reps / 10
+	}
+	fixed := []int{40, 300, 4096}
+	size := func(i int) int {
+		if c.Reps == 0 {
+			if i == 31 {
+				return 65536
+			}
+			return fixed[i%3]
+		}
+		switch x := r.Intn(10); {
+		case x < 6:
+			return tokLen + r.Intn(512-tokLen)
+		case x < 9:
+			return 512 + r.Intn(8192-512)
+		}
+		return 8192 + r.Intn(65536-8192+1)
+	}
+	for round := 0; round < rounds; round++ {
+		i := 0
+		for _, t := range seqTriggers {
+			for _, pr := range seqProbes {
+				s := size(i)
+				i++
+				ops = append(ops, Op{N: len(ops), Kind: t.kind, Marker: t.marker, Enforce: t.enforce, Size: s, SizeCl: sizeClass(s), Phase: "trigger"})
+				s = size(i)
+				i++
+				ops = append(ops, Op{N: len(ops), Kind: pr.kind, Marker: pr.marker, Enforce: pr.enforce, Size: s, SizeCl: sizeClass(s), Phase: "probe",
+					After: fmt.Sprintf("%s %s enforce=%v", t.kind, t.marker, t.enforce)})
+			}
+		}
+	}
+	// the marker matrix in its plain order, once, on the same session
+	for _, kind := range []string{"call", "push"} {
+		for _, m := range markers {
+			for _, enf := range []bool{false, true} {
+				if kind == "push" && enf {
+					continue
+				}
+				ops = append(ops, Op{N: len(ops), Kind: kind, Marker: m, Enforce: enf, Size: 40, SizeCl: "small"})
+			}
+		}
+	}
+	return ops
 }
 
 func sizeClass(n int) string {
@@ -128,6 +215,9 @@ func sizeClass(n int) string {
 }
 
 func opsFor(c Cell, r *core.Rand) []Op {
+	if c.Flavour == "swap-nonempty" {
+		return seqOps(c, r)
+	}
 	var ops []Op
 	add := func(size int) {
 		for _, kind := range []string{"call", "push"} {
@@ -459,6 +549,8 @@ type opRec struct {
 	gotArg  interface{}
 	gotMeta string // X-Secure / X-Accept-Secure as seen by the handler
 	pushSt  string // what Push() returned
+	sawSec  string // value of X-Secure as seen by the handler
+	gate    *concGate
 
 	// observer records
 	outBody   map[string][]byte // "call" | "push" | "reply" -> body bytes handed to the protocol
@@ -499,8 +591,38 @@ func onHandle(ctx metaPeeker, arg interface{}) *opRec {
 	rec.runs++
 	rec.gotArg = clone(arg)
 	rec.gotMeta = fmt.Sprintf("X-Secure=%q X-Accept-Secure=%q", ctx.PeekMeta(secure.SECURE_META_KEY), ctx.PeekMeta(secure.ACCEPT_SECURE_META_KEY))
+	rec.sawSec = string(ctx.PeekMeta(secure.SECURE_META_KEY))
+	g := rec.gate
 	rec.mu.Unlock()
+	if g != nil {
+		g.arrive()
+	}
 	return rec
+}
+
+// concGate holds the handlers of one concurrent round until all expected ones have entered (or a
+// short bound passed), so that the calls really are in flight at once and their replies leave together.
+// It only shapes the schedule; no verdict depends on it.
+type concGate struct {
+	mu      sync.Mutex
+	want    int
+	arrived int
+	open    chan struct{}
+}
+
+func newGate(want int) *concGate { return &concGate{want: want, open: make(chan struct{})} }
+
+func (g *concGate) arrive() {
+	g.mu.Lock()
+	g.arrived++
+	if g.arrived == g.want {
+		close(g.open)
+	}
+	g.mu.Unlock()
+	select {
+	case <-g.open:
+	case <-time.After(200 * time.Millisecond):
+	}
 }
 
 var errNoRec = erpc.NewStatus(599, "c17 harness: no operation record for this request", "")
@@ -721,13 +843,25 @@ type cellRun struct {
 
 func (cr *cellRun) add(f finding) { cr.findings = append(cr.findings, f) }
 
+// tag is the scenario tag appended to the marker class in fingerprints.
+func (cr *cellRun) tag(op Op) string {
+	t := ""
+	if cr.c.Flavour != "" {
+		t = "@" + cr.c.Flavour
+	}
+	if op.Phase == "concurrent" {
+		t += "@concurrent"
+	}
+	return t
+}
+
 func (cr *cellRun) violate(role string, op Op, symptom, what string, w map[string]interface{}) {
 	if w == nil {
 		w = map[string]interface{}{}
 	}
 	w["op"] = op
 	w["cell"] = cr.c
-	cr.add(finding{core.Violated, role, op.Marker, symptom, what, w})
+	cr.add(finding{core.Violated, role, op.Marker + cr.tag(op), symptom, what, w})
 }
 
 func (cr *cellRun) unsure(role string, op Op, what string, w map[string]interface{}) {
@@ -735,7 +869,7 @@ func (cr *cellRun) unsure(role string, op Op, what string, w map[string]interfac
 		w = map[string]interface{}{}
 	}
 	w["op"] = op
-	cr.add(finding{core.Inconclusive, role, op.Marker, "inconclusive", what, w})
+	cr.add(finding{core.Inconclusive, role, op.Marker + cr.tag(op), "inconclusive", what, w})
 }
 
 func keysFor(class string, r *core.Rand) (ka, kb string) {
@@ -824,6 +958,11 @@ func runCell(id string, c Cell, seedv int64) {
 	if c.Dir == "b2a" {
 		sender, receiver, senderEnd = l.B, l.A, 1
 	}
+	if c.Flavour == "swap-nonempty" {
+		// application data in the session swap on both ends, before any traffic
+		l.A.Swap().Store("c17-app-entry", "A:"+id)
+		l.B.Swap().Store("c17-app-entry", "B:"+id)
+	}
 	cid := codecID(c.Body)
 	abort := ""
 	var pushes []*opRec
@@ -896,11 +1035,76 @@ func runCell(id string, c Cell, seedv int64) {
 		pushes = append(pushes, rec)
 	}
 
+	// concurrent phase: k calls in flight at once on this session; values and statuses only
+	if abort == "" {
+		cur.Store((*opRec)(nil))
+		n := len(ops)
+		for ri, rd := range concRounds(c) {
+			var recs []*opRec
+			expectRun := 0
+			for j := 0; j < rd.k; j++ {
+				m := rd.markers[j%len(rd.markers)]
+				sz := []int{40, 4096, 300, 40, 1500, 40, 9000, 300}[(j+ri)%8]
+				if c.Reps > 0 {
+					sz = tokLen + r.Intn(12000)
+				}
+				rec := newRec(Op{N: n, Kind: "call", Marker: m, Size: sz, SizeCl: sizeClass(sz), Phase: "concurrent"})
+				n++
+				if equalKeys || !hasSecure(m) {
+					expectRun++
+				}
+				recs = append(recs, rec)
+			}
+			g := newGate(expectRun)
+			for _, rec := range recs {
+				rec.gate = g
+			}
+			tp.reset()
+			ch := make(chan erpc.CallCmd, rd.k)
+			byCmd := map[erpc.CallCmd]*opRec{}
+			for _, rec := range recs {
+				set := append([]erpc.MessageSetting{erpc.WithBodyCodec(cid), erpc.WithSetMeta("Id", rec.id)}, markerSettings(rec.op.Marker)...)
+				byCmd[sender.AsyncCall(rt.call[c.Body], rec.arg, newHolder(c.Body), ch, set...)] = rec
+			}
+			done := map[*opRec]erpc.CallCmd{}
+			timeout := time.After(opTimeout)
+			for len(done) < rd.k && abort == "" {
+				select {
+				case cmd := <-ch:
+					rec := byCmd[cmd]
+					if rec == nil {
+						abort = "concurrent phase: a CallCmd that was not issued arrived on the completion channel"
+						break
+					}
+					done[rec] = cmd
+				case <-timeout:
+					abort = fmt.Sprintf("concurrent phase (k=%d): %d of %d calls did not complete within the watchdog", rd.k, rd.k-len(done), rd.k)
+				}
+			}
+			if abort == "" {
+				reqAll, repAll, _ := tp.take(senderEnd)
+				g.mu.Lock()
+				core.Max("max_handlers_in_flight", int64(g.arrived))
+				g.mu.Unlock()
+				for _, rec := range recs {
+					cr.checkConcurrent(rec, done[rec], equalKeys, rd.k, reqAll, repAll)
+				}
+				cr.stats["concurrent_rounds"]++
+			}
+			for _, rec := range recs {
+				drop(rec)
+			}
+			if abort != "" {
+				break
+			}
+		}
+	}
+
 	// barrier for the pushes: a sentinel call (the receiver's reader has then taken every earlier
 	// frame and registered its handler context), then the receiver's session is closed gracefully,
 	// which waits for all handler contexts of the session.
 	if abort == "" {
-		srec := newRec(Op{N: len(ops), Kind: "call", Marker: "none", Size: 64, SizeCl: "small"})
+		srec := newRec(Op{N: len(ops) + 100000, Kind: "call", Marker: "none", Size: 64, SizeCl: "small"})
 		cmd, ok := doCall(srec, nil)
 		switch {
 		case !ok:
@@ -948,7 +1152,7 @@ func runCell(id string, c Cell, seedv int64) {
 	for k, v := range cr.stats {
 		core.Add(k, v)
 	}
-	sig := fmt.Sprintf("%s/%s/%s/%s/%s", c.Proto, c.Body, c.Keys, c.Dir, c.Scope)
+	sig := fmt.Sprintf("%s/%s/%s/%s/%s%s", c.Proto, c.Body, c.Keys, c.Dir, c.Scope, cr.tag(Op{}))
 	core.Sample(map[string]interface{}{"cell": c, "ops": len(ops), "messages_checked": cr.checked, "stats": cr.stats})
 
 	if abort != "" {
@@ -1012,8 +1216,11 @@ func (cr *cellRun) emit(id, sig string) {
 }
 
 func (cr *cellRun) nontrivial(role string, op Op) {
-	core.Distinct("nontrivial", fmt.Sprintf("%s/%s/%s/%s/%s/%s/enf=%v/%s", role, op.Marker, cr.c.Proto, cr.c.Body, cr.c.Keys, op.SizeCl, op.Enforce, cr.c.Scope))
+	core.Distinct("nontrivial", fmt.Sprintf("%s/%s%s/%s/%s/%s/%s/enf=%v/%s", role, op.Marker, cr.tag(op), cr.c.Proto, cr.c.Body, cr.c.Keys, op.SizeCl, op.Enforce, cr.c.Scope))
 	core.Distinct("marker_proto_codec", fmt.Sprintf("%s/%s/%s/%s", role, op.Marker, cr.c.Proto, codecName(cr.c.Body)))
+	if op.Phase == "probe" {
+		core.Distinct("sequence_pairs", fmt.Sprintf("%s -> %s %s/%s/%s", op.After, op.Kind, op.Marker, cr.c.Proto, codecName(cr.c.Body)))
+	}
 }
 
 func statusText(s *erpc.Status) string {
@@ -1180,6 +1387,10 @@ func (cr *cellRun) checkCall(rec *opRec, cmd erpc.CallCmd, equalKeys bool) {
 		cr.violate("call", op, sym, fmt.Sprintf("%s request: the handler's argument differs from the original: got %s want %s", cl, brief(gotArg), brief(rec.arg)), w)
 		return
 	}
+	if !marked && rec.sawSec == "true" {
+		cr.violate("call", op, "unmarked-altered", fmt.Sprintf("unmarked request (%s): the handler saw the metadata %s=true", op.Marker, secure.SECURE_META_KEY), base())
+		return
+	}
 	cr.stats["handler_args_verified"]++
 
 	// ---- the reply
@@ -1276,6 +1487,125 @@ func (cr *cellRun) checkCall(rec *opRec, cmd erpc.CallCmd, equalKeys bool) {
 	}
 }
 
+type concRound struct {
+	k       int
+	markers []string
+}
+
+func concRounds(c Cell) []concRound {
+	base := []concRound{{2, []string{"secure"}}, {8, []string{"secure"}}, {2, []string{"secure+accept-true"}},
+		{8, []string{"secure", "secure+accept-true"}}, {8, []string{"secure", "none", "accept-true", "secure+accept-false"}}}
+	if c.Reps == 0 {
+		return base
+	}
+	var out []concRound
+	for i := 0; i < c.Reps/5; i++ {
+		out = append(out, base...)
+	}
+	return out
+}
+
+// checkConcurrent judges one call of a concurrent round: its own value at the handler, its own result
+// and status OK at the caller (or, with different keys, no handler run / no OK status); for messages
+// that must be encrypted, the token nowhere in what either end wrote during the round.
+func (cr *cellRun) checkConcurrent(rec *opRec, cmd erpc.CallCmd, equalKeys bool, k int, reqAll, repAll []byte) {
+	op := rec.op
+	res, stat := cmd.Reply()
+	rec.mu.Lock()
+	runs, gotArg, gotMeta, sawSec := rec.runs, rec.gotArg, rec.gotMeta, rec.sawSec
+	rec.mu.Unlock()
+	marked := hasSecure(op.Marker)
+	expect := replyExpectation(op)
+	base := func() map[string]interface{} {
+		return map[string]interface{}{"arg_token": rec.argTok, "result_token": rec.resTok, "status": statusText(stat), "handler_runs": runs,
+			"handler_saw_meta": gotMeta, "keys": cr.c.Keys, "in_flight": k}
+	}
+	cr.checked++
+	cr.nontrivial("call", op)
+	cr.stats["concurrent_calls"]++
+	if !equalKeys && marked {
+		cr.stats["wrong_key_requests"]++
+		if runs > 0 {
+			w := base()
+			w["handler_arg"] = brief(gotArg)
+			cr.violate("call", op, "wrong-key-handler-ran", fmt.Sprintf("different keys (%s), %d calls in flight: the handler was invoked for an encrypted request; argument %s", cr.c.Keys, k, brief(gotArg)), w)
+		}
+		if stat.OK() {
+			w := base()
+			w["result"] = brief(res)
+			cr.violate("call", op, "wrong-key-status-ok", fmt.Sprintf("different keys (%s), %d calls in flight: the call with an encrypted request completed with status OK", cr.c.Keys, k), w)
+		}
+		if runs == 0 && !stat.OK() {
+			cr.stats["wrong_key_requests_rejected"]++
+		}
+		return
+	}
+	sym, cl := "value-mismatch", "secure-marked"
+	if !marked {
+		sym, cl = "unmarked-altered", "unmarked"
+	}
+	if equalKeys && marked {
+		if enc, off := find(reqAll, rec.argTok); enc != "" {
+			cr.violate("call", op, "plaintext-on-wire", fmt.Sprintf("%d calls in flight: the plaintext token of a call marked secure is on the wire (encoding %s)", k, enc),
+				map[string]interface{}{"token": rec.argTok, "encoding": enc, "excerpt": excerpt(reqAll, off, 40)})
+		}
+	}
+	if runs != 1 {
+		cr.violate("call", op, sym, fmt.Sprintf("%s request, %d calls in flight: the handler ran %d time(s) instead of once; caller status %s", cl, k, runs, statusText(stat)), base())
+		return
+	}
+	if !same(rec.arg, gotArg) {
+		w := base()
+		w["handler_arg"], w["original_arg"] = brief(gotArg), brief(rec.arg)
+		cr.violate("call", op, sym, fmt.Sprintf("%s request, %d calls in flight: the handler's argument is not this call's original: got %s want %s", cl, k, brief(gotArg), brief(rec.arg)), w)
+		return
+	}
+	if !marked && sawSec == "true" {
+		cr.violate("call", op, "unmarked-altered", fmt.Sprintf("unmarked request, %d calls in flight: the handler saw the metadata %s=true", k, secure.SECURE_META_KEY), base())
+		return
+	}
+	cr.stats["handler_args_verified"]++
+	cr.checked++
+	cr.nontrivial("reply", op)
+	// as in the sequential check: "encrypted" is what the replying side marked on the reply
+	encrypted := false
+	if im := cmd.InputMeta(); im != nil && string(im.Peek(secure.SECURE_META_KEY)) == "true" {
+		encrypted = true
+	}
+	if !equalKeys && encrypted {
+		cr.stats["wrong_key_replies"]++
+		if stat.OK() {
+			w := base()
+			w["result"] = brief(res)
+			cr.violate("reply", op, "wrong-key-status-ok", fmt.Sprintf("different keys (%s), %d calls in flight: the reply was encrypted by the other side, yet the call completed with status OK", cr.c.Keys, k), w)
+		} else {
+			cr.stats["wrong_key_replies_rejected"]++
+		}
+		return
+	}
+	rsym, rcl := "value-mismatch", "encrypted"
+	if !encrypted {
+		rsym, rcl = "unmarked-altered", "unmarked"
+	}
+	if equalKeys && expect == "yes" {
+		if enc, off := find(repAll, rec.resTok); enc != "" {
+			cr.violate("reply", op, "reply-not-encrypted", fmt.Sprintf("%d calls in flight: the result's plaintext token of a reply that had to be encrypted is on the wire (encoding %s)", k, enc),
+				map[string]interface{}{"token": rec.resTok, "encoding": enc, "excerpt": excerpt(repAll, off, 40)})
+		}
+	}
+	if !stat.OK() {
+		cr.violate("reply", op, rsym, fmt.Sprintf("%s reply, %d calls in flight: the handler returned this call's result but the caller got status %s", rcl, k, statusText(stat)), base())
+		return
+	}
+	if !same(rec.res, res) {
+		w := base()
+		w["caller_result"], w["original_result"] = brief(res), brief(rec.res)
+		cr.violate("reply", op, rsym, fmt.Sprintf("%s reply, %d calls in flight: the caller's result is not the one its handler returned: got %s want %s", rcl, k, brief(res), brief(rec.res)), w)
+		return
+	}
+	cr.stats["caller_results_verified"]++
+}
+
 func (cr *cellRun) checkPushFrame(rec *opRec, st *erpc.Status, equalKeys bool) {
 	op := rec.op
 	cr.checked++
@@ -1328,6 +1658,10 @@ func (cr *cellRun) checkPushDelivery(rec *opRec, equalKeys bool) {
 		w["handler_arg"] = brief(gotArg)
 		w["original_arg"] = brief(rec.arg)
 		cr.violate("push", op, sym, fmt.Sprintf("%s push: the handler's argument differs from the original: got %s want %s", cl, brief(gotArg), brief(rec.arg)), w)
+		return
+	}
+	if !marked && rec.sawSec == "true" {
+		cr.violate("push", op, "unmarked-altered", fmt.Sprintf("unmarked push (%s): the handler saw the metadata %s=true", op.Marker, secure.SECURE_META_KEY), base())
 		return
 	}
 	cr.stats["handler_args_verified"]++
